@@ -489,14 +489,7 @@ func extBytesEqual(fr *frame, args []value) value {
 	if len(a) != len(b) {
 		return false
 	}
-	var acc value = true
-	for k := range a {
-		acc = fr.i.andV(acc, fr.i.equalsV(tU8, a[k], b[k]))
-		if acc == false {
-			return false
-		}
-	}
-	return acc
+	return fr.i.bytesEqV(a, b)
 }
 
 func extBytesCompare(fr *frame, args []value) value {
